@@ -4,5 +4,5 @@ P="$1"; shift
 for d in ${OUTROOT:-/tmp/wt_out}/$P/m*/; do
   m=$(basename $d)
   echo "#### $P $m: $(grep -m1 -v '^\s*$' $d/notes.md | cut -c1-150)"
-  LINES_MAX=${LINES_MAX:-4} /verif/tools/try_mutant.sh $d/patch.diff $P "$@" 2>&1 | cut -c1-300
+  pf=$d/patch.diff; [ -f $d/patch_rebased.diff ] && pf=$d/patch_rebased.diff; LINES_MAX=${LINES_MAX:-4} /verif/tools/try_mutant.sh $pf $P "$@" 2>&1 | cut -c1-300
 done
